@@ -13,22 +13,22 @@ CHECKS = {
         ref='4/C06'),
     'C07': dict(
         technique='ground-truth monitor: expected location of every re-exported object comes from the generator; registry, consumer name resolution, base classes, annotations and docstring cross-references (old and new qualified name) are checked under every reachable processing order; counterfactual attribution',
-        text='Exploration. Generated packages with one re-exporter per object (package or sibling module; plain, renamed, star), negative controls listed in the defining module\'s own __all__, and consumer modules that reach the object from the defining module, the re-exporting module, a module alias or both are analysed in every reachable order (<=6/24, else sampled); the object and its members must be registered exactly at the exported name, and every consumer reference must lead to that one object.',
+        text='Exploration. Generated packages with one re-exporter per object (package or sibling module; plain, renamed, star), negative controls listed in the defining module\'s own __all__, and consumer modules that reach the object from the defining module, the re-exporting module, a module alias or both are analysed in every reachable order (<=6/24, else sampled); the object and its members must be registered exactly at the exported name, and every consumer reference must lead to that one object. Definitions of the defining module that name the object in annotations and are themselves re-exported by another module (insiders) must still link to it in the rendered attribute type and signatures.',
         note='Only the single-re-exporter shape of the statement is generated; the stale-import mechanism is credited only when the problem vanishes in a re-run of the same order with that mechanism alone repaired.',
         ref='4/C07'),
     'C08': dict(
         technique='total-function monitor plus conservation check over hooked events: the plaintext fallback parser, the stan fallbacks and reportErrors (fatal flags) are wrapped from the harness; "gave up => reported, counted, and full original text shown in <p class=pre>"; neighbour differential against a clean system',
-        text='Exploration. A markup-fragment fuzzer (four markups, broken nesting/indentation, unknown directives, roles and fields, headings without slug, doctest indentation errors, arbitrary Unicode incl. controls and surrogates, mutated real docstrings, deep repetitions) drives format_docstring, format_summary, format_toc and flatten for eight object kinds x five docformats x process-types on/off; exceptions and confirmed CPU-budget overruns are violations; when the monitors saw the parser or renderer give up, the object must be in System.parse_errors, a counted message must exist and the page must show the complete docstring as plain text; recoverable reST problems must be reported (judged twice: against pydoctor\'s own parser called directly and against plain docutils parsing the same text, structural messages only); a control function in the same module must render as in a clean system.',
+        text='Exploration. A markup-fragment fuzzer (four markups, broken nesting/indentation, unknown directives, roles and fields, headings without slug, doctest indentation errors, arbitrary Unicode incl. controls and surrogates, mutated real docstrings, deep repetitions) drives format_docstring, format_summary, format_toc and flatten for eight object kinds x five docformats x process-types on/off; exceptions and confirmed CPU-budget overruns are violations; when the monitors saw the parser or renderer give up, the object must be in System.parse_errors, a counted message must exist and the page must show the complete docstring as plain text; recoverable reST problems must be reported (judged twice: against pydoctor\'s own parser called directly and against plain docutils parsing the same text, structural messages only); a control function in the same module must render as in a clean system. The same objects rendered in two orders must give the same per-object output; a plain first line must be shown whatever follows it; an overriding member without docstring degrades like the owner of the inherited docstring.',
         note='A "fatal" error means giving up for epytext only (docutils flags recovered errors as fatal too); BROKEN placeholders are legal for summary/toc/fields only; raw/include point to non-existent paths.',
         ref='4/C08'),
     'C09': dict(
         technique='conservation monitor with unique word tokens: structure-aware documents carry ground truth (token order, exact verbatim block text per markup rules, field membership); the visible text of the real format_docstring output is extracted and compared',
-        text='Exploration. Documents built from paragraphs of unique tokens, inline markup, nested lists three deep, literal blocks whose lines look like markup, doctest blocks, sections and fields of every kind (also with literal blocks inside field bodies) are serialised to epytext, reST, Google and NumPy layouts by serializers that encode each markup\'s own rules; the rendered body must show the tokens in source order with nothing glued, every verbatim block character for character, and every field\'s tokens in the row/section of that field (or the field named in a warning); plaintext documents must be reproduced exactly.',
+        text='Exploration. Documents built from paragraphs of unique tokens, inline markup, nested lists three deep, literal blocks whose lines look like markup, doctest blocks, sections and fields of every kind (also with literal blocks inside field bodies) are serialised to epytext, reST, Google and NumPy layouts by serializers that encode each markup\'s own rules; the rendered body must show the tokens in source order with nothing glued, every verbatim block character for character, and every field\'s tokens in the row/section of that field (or the field named in a warning); plaintext documents must be reproduced exactly. Code and doctest blocks carry irregular spacing and non-Python languages; consolidated field lists have multi-block items; the host function is sometimes annotated.',
         note='Well-formed means "as written by vf/gen/docgen.py", each rule citing the markup manual (lists indented in epytext, blocks closed by blank lines, literal text relative to the introducing paragraph in epytext and to the common indentation in docutils). One Google-style defect is a known finding.',
         ref='4/C09'),
     'C10': dict(
         technique='strict XML parse (expat) of every page written by the real driver + canary/control structural differential: element/attribute skeleton of the hostile run must equal that of a control run in which only the five HTML-significant characters of each planted canary are replaced',
-        text='Exploration. A directed module plants unique canaries (tag/attribute/handler look-alikes, entity look-alikes, CDATA and comment delimiters, a script element) in 40+ positions where source text flows into pages (docstrings of every object kind, field bodies and field arguments, constants, defaults, string annotations, decorator arguments, base subscripts, __all__, deprecation messages) under all five docformats; generated projects carry canaries in docstrings; real packages are rendered too. Every page must be well-formed once characters illegal in XML are set aside, and no element or attribute may exist in the hostile output that the control output lacks.',
+        text='Exploration. A directed module plants unique canaries (tag/attribute/handler look-alikes, entity look-alikes, CDATA and comment delimiters, a script element) in 40+ positions where source text flows into pages (docstrings of every object kind, field bodies and field arguments, constants, defaults, string annotations, decorator arguments, base subscripts, __all__, deprecation messages) under all five docformats; generated projects carry canaries in docstrings; real packages are rendered too. Every page must be well-formed once characters illegal in XML are set aside, and no element or attribute may exist in the hostile output that the control output lacks. Canaries also sit in link labels (well-formed markup that survives a re-parse), in values that force the fallback renderer (U+00A0), in bytes literals and in non-Python code blocks; the directed module must itself parse (deciding counter).',
         note='Pure presentational spans (class attribute only) and <wbr> are removed from both skeletons because their placement depends on the escaped length of words; in type fields the quote characters belong to the type mini-language, so canaries there carry none; href/src values of explicit link markup and reST raw/include are outside the statement.',
         ref='4/C10'),
     'C11': dict(
@@ -38,7 +38,7 @@ CHECKS = {
         ref='4/C11'),
     'C12': dict(
         technique='offline closed-world trace search over the output directory for every hidden object (files, anchors, link targets, listing entries, search records, inventory lines) and marker check for every listing entry of private objects, joined with the live model\'s privacy',
-        text='Exploration. Generated projects are rendered under two (quick) to four (thorough) generated --privacy rule lists each (exact names and patterns, all three levels, in varying order), covering hidden bases of visible classes, hidden modules that are imported from, hidden members that are overridden or cross-referenced and private objects in every listing; the whole output is searched for traces of each hidden object and each private listing entry is checked for the marker the public/private toggle acts on. One partial build per project (--html-subject naming objects inside and outside hidden containers) is searched in the same way.',
+        text='Exploration. Generated projects are rendered under two (quick) to four (thorough) generated --privacy rule lists each (exact names and patterns, all three levels, in varying order), covering hidden bases of visible classes, hidden modules that are imported from, hidden members that are overridden or cross-referenced and private objects in every listing; the whole output is searched for traces of each hidden object and each private listing entry is checked for the marker the public/private toggle acts on. One partial build per project (--html-subject naming objects inside and outside hidden containers) is searched in the same way. Expected privacy is derived from the rule list with the manual\'s reference matcher (not read from the model); rule lists contain conflicting exact rules and rules on members inherited without override; sidebar items without a link are read too.',
         note='Only links, anchors, entries, records and files count as traces (not textual mentions); the judged listings are those the statement names (member tables, member details, sidebar, module index, search documents).',
         ref='4/C12'),
     'C13': dict(
@@ -48,12 +48,12 @@ CHECKS = {
         ref='4/C13'),
     'C01': dict(
         technique='process-level monitor around the real driver.main run in-process: exception capture keyed by mechanism, exit status, conservation over the input files (every file a processed module or reported by a message naming it; modules recorded at creation by a wrapper of System.analyzeModule), artefact inventory with completeness of every page, sys.addaudithook monitor for writes outside the output directory, differential run for the unparsable-neighbour clause, CPU-time watchdog confirmed alone, and a sample repeated as `python -X dev -m pydoctor` subprocesses',
-        text='Exploration. Workloads: real packages of the stdlib, site-packages and pydoctor itself under every docformat; G-WILD packages (random ast over all statement, expression, pattern and type-parameter classes with the names pydoctor interprets, fuzzed docstrings); G-PROJ projects; MUT byte/line/token/encoding mutations of generated and real files with surely-unparsable siblings; about fifty directed stress trees (operator chains up to 3000 terms, nesting, huge literals, lone surrogates, odd __all__/__docformat__/imports/decorators/annotations, name clashes, odd file names and encodings, broken __init__.py, duplicate and multiple roots, symlink loop, 400-module import chain).',
+        text='Exploration. Workloads: real packages of the stdlib, site-packages and pydoctor itself under every docformat; G-WILD packages (random ast over all statement, expression, pattern and type-parameter classes with the names pydoctor interprets, fuzzed docstrings); G-PROJ projects; MUT byte/line/token/encoding mutations of generated and real files with surely-unparsable siblings; about fifty directed stress trees (operator chains up to 3000 terms, nesting, huge literals, lone surrogates, odd __all__/__docformat__/imports/decorators/annotations, name clashes, odd file names and encodings, broken __init__.py, duplicate and multiple roots, symlink loop, 400-module import chain). Since rounds 3-4: non-source files beside modules (.pyc/.pyo/.pyi/.so/.pyw/backup), directories named like modules, odd and very long cross-reference targets (each directed input with its own small CPU budget, so a hang is decided in seconds), a package re-exported by its own submodule; a superseded input is accepted only when the winner is itself an input file, and reports must name the exact path.',
         note='Option errors (exit 1) are outside the workload. Two inputs with the same qualified name cannot both be documented; the superseded one is accepted when a duplicate message is issued. Pages of objects that are registered but unreachable from the roots are a known finding shared with C02/C11.',
         ref='4/C01'),
     'C02': dict(
         technique='invariant monitors at hooks: icontract postconditions (with OLD snapshots) attached from the harness to System.addObject / handleDuplicate / Documentable.reparent check the touched subtree after every registry mutation; whole-system invariants R1-R9 at quiescence; processing orders injected at the boundary',
-        text='Exploration. Generated projects whose analysis history mixes re-export moves, duplicate definitions (also inside classes and of moved names), a class re-exported under a submodule name, import cycles, nested classes, field attributes and zope.interface declarations are analysed under several reachable processing orders, and real packages are analysed; the monitors evaluate the registry/tree invariants of the statement where the state becomes observable (at return of each mutation) and on the whole system after process().',
+        text='Exploration. Generated projects whose analysis history mixes re-export moves, duplicate definitions (also inside classes and of moved names), a class re-exported under a submodule name, import cycles, nested classes, field attributes and zope.interface declarations are analysed under several reachable processing orders, and real packages are analysed; the monitors evaluate the registry/tree invariants of the statement where the state becomes observable (at return of each mutation) and on the whole system after process(). The repository\'s own test packages and directed duplicate roots (module beside package, two roots of one name) are part of the corpus.',
         note='Transient states inside one mutation are not judged; superseded duplicates are exempt from the entry-in-parent clause as the statement says; R7/R8 only for systems post-processed once. Two defects are listed as known findings by mechanism.',
         ref='4/C02'),
     'C03': dict(
@@ -63,12 +63,12 @@ CHECKS = {
         ref='4/C03'),
     'C04': dict(
         technique='reference-model monitor: Documentable.resolveName for every run-time-bound name (plain and dotted, from module and class scopes) compared with the object CPython binds, joined through globally unique definition names',
-        text='Exploration with CPython as reference. In generated acyclic multi-package projects every definition has a unique name, so the object a name denotes at run time (__module__/__qualname__) identifies one spec item; every name bound in every module and class namespace, every module-global seen from class bodies, and dotted chains through module aliases and classes are resolved by pydoctor and compared. Names imported (plain, aliased, relative, star) directly from the defining module or reached through a module alias must resolve.',
+        text='Exploration with CPython as reference. In generated acyclic multi-package projects every definition has a unique name, so the object a name denotes at run time (__module__/__qualname__) identifies one spec item; every name bound in every module and class namespace, every module-global seen from class bodies, and dotted chains through module aliases and classes are resolved by pydoctor and compared. Names imported (plain, aliased, relative, star) directly from the defining module or reached through a module alias must resolve. Names bound by a package but not by its submodule must not resolve from the submodule; two roots are analysed in both orders; directed spec-free projects cover dotted names whose first component is shadowed locally and multi-name imports of submodules from their package. A wrong answer is credited to the known star-import-in-progress mechanism only if the sources contain the import cycle.',
         note='None is allowed outside the must-resolve clause; names Python would not bind are outside the quantifier.',
         ref='4/C04'),
     'C05': dict(
         technique='reference-model monitor: Class.mro/find/docsources/inherited tables/override notes compared with CPython type() built from the same source, exhaustive over all hierarchies of <=5 classes',
-        text='Exploration with CPython itself as the reference model. The same generated source is executed statement by statement by the interpreter (TypeError = inconsistent hierarchy) and analysed by pydoctor; linearisation, inconsistency reports (recorded through a System.msg monitor), member lookup, inherited docstrings, inherited-member tables and "overrides" notes are compared for every class. The space the property names (every ordered choice of bases, <=5 classes) is enumerated completely; n=6 and multi-module/generic hierarchies are sampled.',
+        text='Exploration with CPython itself as the reference model. The same generated source is executed statement by statement by the interpreter (TypeError = inconsistent hierarchy) and analysed by pydoctor; linearisation, inconsistency reports (recorded through a System.msg monitor), member lookup, inherited docstrings, inherited-member tables and "overrides" notes are compared for every class. The space the property names (every ordered choice of bases, <=5 classes) is enumerated completely; n=6 and multi-module/generic hierarchies are sampled. Every random hierarchy is run again with a further module re-exporting a subset of its classes in an order of its own (moved classes are re-registered in that order); whole generated projects under three processing orders and corpus packages are judged against type() over dummy classes mirroring the resolved base graph; the docstring each method page shows is rendered base classes first and its owner read off the text.',
         note='Trusts CPython 3.12 type() and the generated member layout; classes that CPython cannot build because an earlier class was refused are not judged; explicit typing.Generic[T] bases are generated only where typing does not rewrite the bases at run time.',
         ref='4/C05'),
     'C14': dict(
@@ -78,17 +78,17 @@ CHECKS = {
         ref='4/C14'),
     'C15': dict(
         technique='reference-model monitor: text produced by the real colorize_pyval (block, inline and wrapped/truncated settings) is parsed back by CPython and compared with the source AST after documented-spelling normalisation; mechanism localisation by pattern rewriting',
-        text='Exploration with CPython\'s parser as reader of the displayed text. Every depth-2 expression tree (form x hole x inner form), every depth-3 operator chain over all operand positions, every literal leaf kind, re.compile calls and random deeper trees are rendered by the real colouriser under unlimited, inline and small linelen/maxlines settings; complete outputs must read back as the same expression (wrap markers removed), incomplete ones must end in the ellipsis marker. A failing expression is attributed to a known mechanism only if rewriting that syntactic pattern away makes it pass and putting it back makes it fail; anything else is a new violation. Part E places every depth-one form, literal leaf and annotation of the signature pool in each display position of a real module (constant value at module and class level, variable/class-variable/instance-variable annotation, type alias, decorator argument, base-class subscript) and reads back what format_constant_value, type2stan, format_decorators and format_class_signature show.',
+        text='Exploration with CPython\'s parser as reader of the displayed text. Every depth-2 expression tree (form x hole x inner form), every depth-3 operator chain over all operand positions, every literal leaf kind, re.compile calls and random deeper trees are rendered by the real colouriser under unlimited, inline and small linelen/maxlines settings; complete outputs must read back as the same expression (wrap markers removed), incomplete ones must end in the ellipsis marker. A failing expression is attributed to a known mechanism only if rewriting that syntactic pattern away makes it pass and putting it back makes it fail; anything else is a new violation. Part E places every depth-one form, literal leaf and annotation of the signature pool in each display position of a real module (constant value at module and class level, variable/class-variable/instance-variable annotation, type alias, decorator argument, base-class subscript) and reads back what format_constant_value, type2stan, format_decorators and format_class_signature show. The pool includes values that are shown through the fallback renderer (U+00A0, U+FFFE/U+FFFF).',
         note='Trusts ast.parse/ast.unparse of CPython 3.12 and the normaliser vf/ref/exprnorm.py (quotes, number formatting, set([..]), regex re-spelling compared by parse tree). Five defects are listed as known findings by mechanism.',
         ref='4/C15'),
     'C16': dict(
         technique='generator with ground truth (problems planted at known physical lines) driving the real driver.main in-process; oracle over the recorded message log (M-MSG wrapper around System.msg as shadow counter), the printed lines and the exit status; metamorphic shift-by-k relation between two runs of the same module',
-        text='Exploration. Generated modules carry unresolvable cross-references, markup errors (fatal and non-fatal), unknown fields, documented non-existent parameters, unsplittable consolidated fields and unrenderable displayed constants at known lines, in module/class/function/method/attribute docstrings (also inherited through a subclass in a second file), in four docformats and seven physical layouts. Every message that names a planted problem must carry the planting file and an admissible line; the same module shifted by k lines must shift each report by k; System.violations must equal the number of counted messages and what is printed; the exit status is compared with the generator\'s ground truth (3 iff -W and something was reported, else 2 iff something unparsable was planted, else 0).',
+        text='Exploration. Generated modules carry unresolvable cross-references, markup errors (fatal and non-fatal), unknown fields, documented non-existent parameters, unsplittable consolidated fields and unrenderable displayed constants at known lines, in module/class/function/method/attribute docstrings (also inherited through a subclass in a second file), in four docformats and seven physical layouts. Every message that names a planted problem must carry the planting file and an admissible line; the same module shifted by k lines must shift each report by k; System.violations must equal the number of counted messages and what is printed; the exit status is compared with the generator\'s ground truth (3 iff -W and something was reported, else 2 iff something unparsable was planted, else 0). Planted problems include ambiguous references, unreadable type specifications, well-formed consolidated lists with broken references, field bodies starting below the field marker, and definitions living in a package that re-exports them.',
         note='Docstrings with line continuations or \\n escapes are outside the generator (documented limitation of the line approximation). Messages the generator did not plant (duplicate parameter documentation, the newfield artefact of consolidated fields) are counted, not judged. One defect pinned by an existing doctest is a known finding.',
         ref='4/C16'),
     'C17': dict(
         technique='round trip with two independent readers (pydoctor SphinxInventory, Sphinx InventoryFile) against an independent page-layout reference, plus structured byte/line fuzzing of SphinxInventory.update with metamorphic "other lines unaffected / dropped lines reported" oracles',
-        text='Exploration. Written inventories of a fixture (non-ASCII, nested, hidden, duplicate and root-named objects), generated projects and real packages are loaded by both readers and compared entry by entry with the visible documented objects and an independent statement of the URL layout. 160k (quick) / 2M (thorough) structured fuzz inputs and 32k / 400k single-line corruptions of valid inventories are fed to the real update(): it must not raise, a previously loaded inventory and the other lines must resolve unchanged, and a line that disappears must have been reported.',
+        text='Exploration. Written inventories of a fixture (non-ASCII, nested, hidden, duplicate and root-named objects), generated projects and real packages are loaded by both readers and compared entry by entry with the visible documented objects and an independent statement of the URL layout. 160k (quick) / 2M (thorough) structured fuzz inputs and 32k / 400k single-line corruptions of valid inventories are fed to the real update(): it must not raise, a previously loaded inventory and the other lines must resolve unchanged, and a line that disappears must have been reported. Payloads also arrive in other container formats (gzip, bz2, lzma, nested zlib), whole and cut short.',
         note='Sphinx 9.1 is the second reader; zlib/UTF-8 are the interpreter\'s; a corrupted line that still parses under another name or a non-py domain counts as usable/ignorable as the reader defines it.',
         ref='4/C17'),
     'C18': dict(
